@@ -4,7 +4,7 @@
 From Coq Require Extraction.
 From Coq Require Import ExtrOcamlBasic.
 From Lox Require Import Rang3.RangeModel Rang3.ClassModel.
-From Lox Require Import Parse.Grammar Parse.Tables Parse.ParseRuntime Parse.Validator Parse.Actions.
+From Lox Require Import Parse.Grammar Parse.Tables Parse.ParseRuntime Parse.Validator Parse.Actions Parse.TermCheck.
 From Lox Require Import Lex.LexRuntime Lex.LexAuto Lex.NfaRef Lex.LexEquiv Lex.RegexRef.
 From Lox Require Import Gen.TableEnc Gen.Numbering Gen.FirstModel Gen.ResolveModel Gen.LALRRef Gen.PrecClimb Gen.Binding Gen.Analyze Gen.NormalizeModel.
 From Lox Require Import Lex.Utf8Model.
@@ -35,4 +35,5 @@ Extraction "loxmodel_ext.ml"
   climb climb_out_of_fuel well_grouped uniformb
   assign_actions wf_input shape_okb rule_generated rule_from_method cast param_value
   analyze well_formed well_formed_weak
+  term_ok term_fuel local_run
   x_sugar_normalize x_sugar_wf x_utf8_decode_all x_utf8_encode_rune.
